@@ -146,6 +146,8 @@ def run(ctx: Ctx, tier: str) -> Result:
     from . import c01_taint
     c01_taint.check(ctx, res, [e for e, _ in entries.values()])
     from .common import borrow
+    borrow(ctx, res, tier, "c17", ("C17.VALUE",), "C01.R3", "what leaves the agent for a plugin is text and numbers of the agent's making, not the program's objects (a label value is "
+           "str(..) of the evaluated expression: a plugin rendering the object later would run the program's code under the plugin's locks)")
     borrow(ctx, res, tier, "c15", ("C15.THREAD",), "C01.R4", "the handler's per-thread state lives in a threading.local of its own (no thread registry, context or identity table the "
            "program can see or inherit)")
     return res
